@@ -14,6 +14,7 @@ A Kani unit module declares
 
 Assertions in harnesses carry their obligation tag as message: `assert!(cond, "C09:or_b.sat_size")`.
 """
+import json
 import os
 import re
 import shutil
@@ -213,7 +214,9 @@ def run_kani_units(mods, repo_root, tier, work, verbose=False):
         r.dropped = list(getattr(m, "DROPPED", []))
     # concrete playback: for failed harnesses ask Kani for the counterexample and run it natively against
     # the real code (cargo kani playback) -- that is the replay of the verifier's counterexample
-    failed = [(m, h) for m, h in harnesses if any(f["id"].startswith("%s.%s." % (m.NAME, h["name"].split("::")[-1])) for f in results[m.NAME].failures)]
+    known_open = set(json.loads(os.environ.get("VERIF_KNOWN_OPEN", "[]")))
+    failed = [(m, h) for m, h in harnesses if any(f["id"].startswith("%s.%s." % (m.NAME, h["name"].split("::")[-1])) and f["id"] not in known_open
+                                                  for f in results[m.NAME].failures)]
     for m, h in failed[:3]:
         short = h["name"].split("::")[-1]
         try:
